@@ -7,6 +7,7 @@
 //!        BX <cap|d> <q0|q1> <ops>      BufferedUnixMetricSink
 //!        UA <naddrs> <ops>             UdpMetricSink::from(&[SocketAddr][..]) with 0, 1 or 2 addresses
 //!        XS - q0 <ops> / BXS <cap|d> q0 <ops>   Unix sinks given a SYMLINK path; op `m` re-points the link to a second listener
+//!        XN - q0 <ops> / BXN <cap|d> q0 <ops>   Unix sinks given a path that is not valid UTF-8; a second listener sits at the lossy name
 //!                                      (observation: D = first listener's datagrams then the second's, |P:<how many at the first>)
 //!        ST <threads> <updates>        SocketStats::update hammered from several threads
 //!        UC <threads> <emits>          one UdpMetricSink shared by several emitting threads
@@ -476,7 +477,10 @@ pub fn run_case(line: &str) -> String {
             }
             format!("S:{}|W:{}.{}.{}.{}", stats_str(&got), bs, ps, bd, pd)
         }
-        "XS" | "BXS" => {
+        "XS" | "BXS" | "XN" | "BXN" => {
+            // XN / BXN: no link; the path given to the sink has a file name that is not valid UTF-8 (Linux paths are bytes),
+            // and a second listener is bound at the name a lossy conversion to a string would produce
+            let nonutf = t[0].ends_with('N');
             // the path given to the sink is a symbolic link that is re-pointed (atomically) to another listener by op `m`:
             // the sink must follow the path it was given, not what the path resolved to when it was built
             let n = COUNTER.fetch_add(1, Ordering::Relaxed);
@@ -484,14 +488,24 @@ pub fn run_case(line: &str) -> String {
             let dir = PathBuf::from(format!("{}/cadence-verif-ln-{}-{}", base, std::process::id(), n));
             let _ = std::fs::remove_dir_all(&dir);
             std::fs::create_dir_all(&dir).expect("mkdir");
-            let (pa, pb, pl) = (dir.join("a.sock"), dir.join("b.sock"), dir.join("l.sock"));
+            let (pa, pb, pl) = if nonutf {
+                use std::os::unix::ffi::OsStrExt;
+                let raw = std::ffi::OsStr::from_bytes(b"s\xff\xfe.sock");
+                let pa = dir.join(raw);
+                let pb = dir.join(raw.to_string_lossy().as_ref());
+                (pa.clone(), pb, pa)
+            } else {
+                (dir.join("a.sock"), dir.join("b.sock"), dir.join("l.sock"))
+            };
             let ra = UnixDatagram::bind(&pa).expect("bind a");
             let rb = UnixDatagram::bind(&pb).expect("bind b");
             ra.set_nonblocking(true).unwrap();
             rb.set_nonblocking(true).unwrap();
-            std::os::unix::fs::symlink(&pa, &pl).expect("symlink");
+            if !nonutf {
+                std::os::unix::fs::symlink(&pa, &pl).expect("symlink");
+            }
             let send = UnixDatagram::unbound().expect("unbound");
-            let sink: Box<dyn MetricSink + Send + Sync + RefUnwindSafe> = if t[0] == "XS" {
+            let sink: Box<dyn MetricSink + Send + Sync + RefUnwindSafe> = if t[0] == "XS" || t[0] == "XN" {
                 Box::new(UnixMetricSink::from(&pl, send))
             } else {
                 match cap_of(t[1]) {
